@@ -267,7 +267,10 @@ pub fn run_lock(dir: &Path, c: &LockCase, st: &mut LockStats) -> Result<(), Stri
                         if kss.len() < 5 {
                             let name = NAMES[usize::from(*n) % NAMES.len()];
                             let manual = *n % 3 == 2;
-                            let ks = dbs[j].inner().keyspace(name, || KeyspaceCreateOptions::default().max_memtable_size(1024).manual_journal_persist(manual)).map_err(|e| format!("keyspace: {e:?}"))?;
+                            // one keyspace flushes constantly (tiny memtable), one lags (default memtable):
+                            // the lagging one pins sealed journals
+                            let mt = if *n % 3 == 1 { 64 * 1024 * 1024 } else { 1024 };
+                            let ks = dbs[j].inner().keyspace(name, || KeyspaceCreateOptions::default().max_memtable_size(mt).manual_journal_persist(manual)).map_err(|e| format!("keyspace: {e:?}"))?;
                             model.entry(name.to_string()).or_default();
                             kss.push(ks);
                         }
@@ -445,14 +448,14 @@ fn act_s() -> BoxedStrategy<Act> {
         2 => any::<u16>().prop_map(Act::CloneKs),
         4 => (any::<u16>(), any::<bool>()).prop_map(|(i, t)| Act::DropDb(i, t)),
         4 => (any::<u16>(), any::<bool>()).prop_map(|(i, t)| Act::DropKs(i, t)),
-        6 => (any::<u16>(), any::<u8>(), any::<u8>()).prop_map(|(i, k, v)| Act::Write(i, k, v)),
+        14 => (any::<u16>(), any::<u8>(), any::<u8>()).prop_map(|(i, k, v)| Act::Write(i, k, v)),
         2 => any::<u16>().prop_map(Act::Rotate),
     ]
     .boxed()
 }
 
 pub fn lock_s() -> BoxedStrategy<C17Case> {
-    (1u8..4, vec(act_s(), 1..14)).prop_map(|(workers, acts)| C17Case::Lock(LockCase { workers, acts })).boxed()
+    (1u8..4, vec(act_s(), 1..22)).prop_map(|(workers, acts)| C17Case::Lock(LockCase { workers, acts })).boxed()
 }
 
 pub fn marker_s() -> BoxedStrategy<C17Case> {
